@@ -749,6 +749,90 @@ fn main() {
                 acc.exact_nontrivial += 1;
             }
         });
+        // an element type that owns a resource (neither Copy nor trivially droppable): same value laws, plus the
+        // lifecycle monitor - no element dropped twice, none used after its drop
+        r.section("owned_elems", r.args.n(30_000, 600_000), |k, rng, acc| {
+            let nmax = if rng.chance(0.1) { 60 } else { 10 };
+            let n = 1 + rng.below(nmax);
+            let alpha = *rng.pick(&[1i64, 2, 3, 6, 1000]);
+            let keys: Vec<i64> = (0..n).map(|_| rng.range(0, alpha)).collect();
+            let mut sk = keys.clone();
+            sk.sort_unstable();
+            let (s_abs, rev) = match rng.below(4) {
+                0 => (2usize, false),
+                1 => (1, true),
+                2 => (3, true),
+                _ => (1, false),
+            };
+            let pol = random_policy(rng);
+            let single = k % 2 == 0;
+            let i = rng.below(n);
+            let m = rng.below(8.min(n) + 2);
+            let request: Vec<usize> = (0..m).map(|_| rng.below(n)).collect();
+            life_reset();
+            acc.eval();
+            let verdict: Result<(), (String, String)> = {
+                let mut parent = Array1::from((0..((n - 1) * s_abs + 3)).map(|_| Res::new(-77)).collect::<Vec<_>>());
+                for (j, &kk) in keys.iter().enumerate() {
+                    parent[1 + j * s_abs] = Res::new(kk);
+                }
+                let mut v = parent.slice_mut(ndarray::s![1..(n - 1) * s_abs + 2;s_abs as isize]);
+                if rev {
+                    v.invert_axis(Axis(0));
+                }
+                let logical: Vec<i64> = v.iter().map(|w| w.key).collect();
+                set_pivots(pol.clone());
+                let out: Result<Vec<(usize, i64)>, String> = if single {
+                    catch(|| v.get_from_sorted_mut(i)).map(|x| vec![(i, x.key)])
+                } else {
+                    catch(|| v.get_many_from_sorted_mut(&Array1::from(request.clone()))).map(|mp| mp.iter().map(|(a, b)| (*a, b.key)).collect())
+                };
+                let after: Vec<i64> = v.iter().map(|w| w.key).collect();
+                let mut a2 = after.clone();
+                a2.sort_unstable();
+                let mut l2 = logical.clone();
+                l2.sort_unstable();
+                match out {
+                    Err(msg) => Err(("no_panic_in_range".to_string(), format!("in-range call panicked: {}", msg))),
+                    Ok(pairs) => {
+                        let mut want: Vec<usize> = if single { vec![i] } else { request.clone() };
+                        want.sort_unstable();
+                        want.dedup();
+                        let mut got: Vec<usize> = pairs.iter().map(|p| p.0).collect();
+                        got.sort_unstable();
+                        if got != want {
+                            Err(("bulk_keys".to_string(), format!("keys of the result {:?}, requested {:?}", got, want)))
+                        } else if let Some((pos, val)) = pairs.iter().find(|(pos, val)| *val != sk[*pos]) {
+                            Err(("reference_sort".to_string(), format!("position {} answered {} but the sorted array holds {}", pos, val, sk[*pos])))
+                        } else if a2 != l2 {
+                            Err(("multiset".to_string(), format!("array after the call {:?} is not a permutation of the input", after)))
+                        } else if pairs.iter().any(|(pos, val)| after[*pos] != *val || after[..*pos].iter().any(|y| y > val) || after[*pos..].iter().any(|y| y < val)) {
+                            Err(("postcondition".to_string(), format!("array after the call {:?} is not ordered around the requested positions", after)))
+                        } else if parent.iter().enumerate().any(|(c, w)| (c < 1 || (c - 1) % s_abs != 0 || (c - 1) / s_abs >= n) && w.key != -77) {
+                            Err(("multiset".to_string(), "a cell outside the view changed".to_string()))
+                        } else {
+                            Ok(())
+                        }
+                    }
+                }
+                // parent, view and results are dropped here
+            };
+            let log = take_pivot_log();
+            let (alive, events) = life_stats();
+            acc.max("lifecycle_events_per_case", events as f64);
+            let info = |what: String| J::obj(vec![("op", J::s(if single { "get_from_sorted_mut<Res>" } else { "get_many_from_sorted_mut<Res>" })), ("keys", J::A(keys.iter().map(|&x| J::I(x as i128)).collect())), ("i", J::u(i)), ("request", J::us(&request)), ("step", J::I(if rev { -(s_abs as i128) } else { s_abs as i128 })), ("policy", J::s(format!("{:?}", pol))), ("what", J::s(what))]);
+            if let Some(f) = life_fault() {
+                acc.violation("element_lifecycle", None, info(f));
+            } else if let Err((mon, what)) = verdict {
+                acc.violation(&mon, None, info(what));
+            }
+            if alive != 0 {
+                acc.count("cases_with_values_still_alive_after_drop_of_everything");
+            }
+            acc.seen("pivot_sequences_distinct", h64(&log));
+            acc.nontrivial(h64(&(&keys, single, i, &request, s_abs, rev, &log)));
+            acc.sample(|| info("sample".into()));
+        });
         // plain integer element types through the same entry points
         r.section("random_ints", r.args.n(10_000, 300_000), |_k, rng, acc| {
             let n = 1 + rng.below(60);
@@ -832,7 +916,21 @@ fn main() {
             let vals: Vec<i64> = (0..n).map(|_| rng.range(0, alpha)).collect();
             let p = rng.below(n);
             let lay = random_layout1(rng);
-            match k % 8 {
+            match k % 9 {
+                8 => {
+                    // an element type that owns a resource (Drop, not Copy), with the lifecycle monitor
+                    life_reset();
+                    acc.eval();
+                    let res = {
+                        let mut a = Array1::from(vals.iter().map(|&v| Res::new(v)).collect::<Vec<_>>());
+                        catch(|| a.partition_mut(p)).map(|k| (k, a.iter().map(|w| w.key).collect::<Vec<i64>>()))
+                    };
+                    if let Some(f) = life_fault() {
+                        acc.violation("element_lifecycle", None, J::obj(vec![("op", J::s("partition_mut<Res>")), ("input", J::s(format!("{:?}", vals))), ("pivot_index", J::u(p)), ("what", J::s(f))]));
+                    } else {
+                        judge_partition_plain(acc, "Res (owns a resource: Drop, not Copy)", &vals, p, res);
+                    }
+                }
                 5 => {
                     // an element type wider than a cache line fragment (48 bytes), ordered by its key only
                     let data: Vec<Wide> = vals.iter().enumerate().map(|(i, &v)| Wide { key: v, pad: [i as u64; 5] }).collect();
@@ -909,8 +1007,8 @@ fn main() {
                     }
                 }
             }
-            acc.nontrivial(h64(&(k % 8, &vals, p, &lay)));
-            acc.count(&format!("elem_kind_{}", k % 8));
+            acc.nontrivial(h64(&(k % 9, &vals, p, &lay)));
+            acc.count(&format!("elem_kind_{}", k % 9));
         });
         r.section("part_random", r.args.n(30_000, 1_000_000), |_k, rng, acc| {
             let n = if rng.chance(0.1) { 1 + rng.below(500) } else { 1 + rng.below(50) };
